@@ -26,7 +26,7 @@ res["demo_changed_tail"] = (r.stdout + r.stderr).strip().splitlines()[-3:]
 res["checks"] = {}
 for c in checks:
     t = time.time()
-    e2 = dict(os.environ, CFDPSA_REPO=wt, CFDPSA_EVIDENCE_DIR=f"/tmp/seed/results/ev-{os.path.basename(wt)}")
+    e2 = dict(os.environ, CFDPSA_REPO=wt, CFDPSA_EVIDENCE_DIR=f"{os.path.dirname(os.path.abspath(outp))}/ev-{os.path.basename(wt)}")
     r = sh(f"/venv/bin/python /verif/cfdpsa/vcheck.py {c}", env=e2, timeout=3000)
     lines = [l for l in r.stdout.splitlines() if l.startswith(("[C", "VIOLATION", "ANALYSIS-ERROR", "    construct"))]
     res["checks"][c] = {"rc": r.returncode, "lines": lines[:12], "wall": round(time.time() - t, 1)}
